@@ -251,8 +251,15 @@ impl World {
         if !self.running(p) {
             return Ok(());
         }
+        let res = {
+            let node = self.nodes[p].as_mut().unwrap();
+            guarded(|| node.chit.verif_update_self_heartbeat())
+        };
+        if let Err(pm) = res {
+            let (prop, code) = if self.cfg.hostile { ("C09", "C09.panic") } else { ("C04", "C04.panic") };
+            return Err(self.viol(prop, code, format!("the node's own heartbeat tick panicked on n{p}: {pm}")));
+        }
         let node = self.nodes[p].as_mut().unwrap();
-        node.chit.verif_update_self_heartbeat();
         let inc = node.inc;
         self.incs[inc].hb += 1;
         self.refresh_view(p);
